@@ -8,7 +8,7 @@
      cofactor_one p 0 7 n    n.P = infinity for every curve point (only for public keys not known to be multiples of G)
      p, n <= 2^256           32-byte encodings
      sha256 has 32-byte output (otherwise arbitrary)
-   all proved outright for (p, n) = (43, 31), (79, 67), (67, 79) (Examples at the end).
+   all proved outright for (p, n) = (43, 31) (Examples at the end) and (79, 67), (67, 79) (Proofs/SchnorrSmallBig.v).
 
    Known hypothesis H (DESIGN 8 C12): on the one path where the challenge e = 0 (mod n) the code evaluates
    point_negate(None) -> TypeError while the BIP computes.  It is the premise [challenge_of ... <> 0] of
@@ -17,7 +17,7 @@
 From Coq Require Import ZArith List Bool.
 Require Import Bits.Lib.Result Bits.Lib.Bytes Bits.Model.Ecmath Bits.Model.Keys Bits.Model.Schnorr.
 Require Import Bits.Proofs.Ecmath Bits.Proofs.Ecdsa Bits.Proofs.Schnorr Bits.Proofs.SchnorrSign.
-Require Import Bits.Proofs.SmallCurves Bits.Proofs.SmallCurvesBig Bits.Proofs.SchnorrSmall.
+Require Import Bits.Proofs.SmallCurves Bits.Proofs.SchnorrSmall.
 Require Bits.Proofs.Sec1 Bits.Proofs.SchnorrSec1.
 Require Bits.Spec.Bip340.
 Import ListNotations.
@@ -160,10 +160,8 @@ Proof.
   split; [exact facts_43|]. split; [exact lift_43|]. split; [exact cofactor_43|].
   split; [intro H; discriminate H|]. split; [intro H; discriminate H|]. exact toy_hash_length.
 Qed.
-Example C12_premises_79 : curve_facts 79 0 7 67 G79 /\ lift_facts 79 /\ cofactor_one 79 0 7 67.
-Proof. split; [exact facts_79|]. split; [exact lift_79|exact cofactor_79]. Qed.
-Example C12_premises_67 : curve_facts 67 0 7 79 G67 /\ lift_facts 67 /\ cofactor_one 67 0 7 79.
-Proof. split; [exact facts_67|]. split; [exact lift_67|exact cofactor_67]. Qed.
+(* the same for (79, 67) and (67, 79): Proofs/SchnorrSmallBig.v (C12_premises_79, C12_premises_67), kept out of this file's
+   import closure so that coqchk of Props/C12 stays cheap *)
 
 Import Coq.Init.Byte.
 Definition ex_key : bytes := to_be 32 5.
